@@ -194,6 +194,12 @@ func (ev *Env) eval(e Expr) Value {
 
 // findIndexBase finds an expression x such that x[name] occurs in e (x not mentioning name).
 func findIndexBase(e Expr, name string) Expr {
+	return findIndexBaseP(e, name, nil, 0)
+}
+
+// findIndexBaseP also looks through predicate applications p(.., x, .., name, ..) whose body indexes a parameter by the
+// parameter that name is passed for.
+func findIndexBaseP(e Expr, name string, preds map[string]*Pred, depth int) Expr {
 	var found Expr
 	var walk func(e Expr)
 	mentions := func(e Expr) bool {
@@ -250,6 +256,22 @@ func findIndexBase(e Expr, name string) Expr {
 			}
 			if x.Fun == "forall" || x.Fun == "exists" {
 				return
+			}
+			if p, ok := preds[x.Fun]; ok && depth < 4 && len(p.Params) == len(x.Args) {
+				for i, a := range x.Args {
+					if id, ok := a.(*EIdent); ok && id.Name == name {
+						if b := findIndexBaseP(p.Body, p.Params[i], preds, depth+1); b != nil {
+							if bid, ok := b.(*EIdent); ok {
+								for j, q := range p.Params {
+									if q == bid.Name && j != i && !mentions(x.Args[j]) {
+										found = x.Args[j]
+										return
+									}
+								}
+							}
+						}
+					}
+				}
 			}
 			for _, a := range x.Args {
 				walk(a)
@@ -563,7 +585,7 @@ func (ev *Env) call(e *ECall) Value {
 		// quantify over the element address when the body indexes a one-slot slice by the bound variable:
 		// the solver then sees (select M k) with a clean trigger instead of (select M (+ ptr i)).
 		iv := Term(qv)
-		if base := findIndexBase(e.Args[3], id.Name); base != nil {
+		if base := findIndexBaseP(e.Args[3], id.Name, fx.E.S.Preds, 0); base != nil {
 			fx.enc.quiet++
 			bv, ok := ev.tryEval(base)
 			fx.enc.quiet--
